@@ -205,6 +205,10 @@ def run(ctx: Context):
             r.violation(cs.fn, cs.loc, "unvalidated UEB path: %s calls _parse_and_validate" % short(cs.fn))
         for (f, nd) in badrefs:
             r.violation(f, f.loc(nd), "%s takes _parse_and_validate as a value" % short(f))
+        cg = get_callgraph(idx)
+        for name in ("_check_integrity", "_parse_and_validate"):
+            for (f, nd) in cg.attr_stores(name):
+                r.violation(f, f.loc(nd), "%s replaces the UEB gate %s" % (short(f), name))
 
     # -- 2. UEB contents ----------------------------------------------------
     with ctx.rule("C45.2", "R1", "_parse_and_validate: roots / segment size come from the checked UEB, derived sizes use "
